@@ -121,6 +121,15 @@ func TestVerifyRequest(t *testing.T) {
 		otherClient := mk(otherSecret, a.BlindKey)
 
 		req := cloneReq(a.State3.Request())
+		if rapid.Bool().Draw(t, "marshalledBefore") {
+			// a value copy of the client's request object, which has already been marshalled (its encoding is cached
+			// inside); the field slices are replaced by private copies so that mutating them does not touch the original
+			req = *a.State3.Request()
+			req.RequestKey = append([]byte{}, req.RequestKey...)
+			req.NameKeyID = append([]byte{}, req.NameKeyID...)
+			req.EncryptedTokenRequest = append([]byte{}, req.EncryptedTokenRequest...)
+			req.Signature = append([]byte{}, req.Signature...)
+		}
 		blind := append([]byte{}, a.BlindKey...)
 		clientKey := append([]byte{}, a.State3.ClientKey()...)
 		anon := gen.Bytes32().Draw(t, "anonOrigin")
